@@ -284,10 +284,17 @@ class LLExec:
             f = m.falg
             self.regs[dest] = f.add(va, vb) if op == "fadd" else f.sub(va, vb) if op == "fsub" else f.mul(va, vb)
             return None
-        if op == "sitofp":
+        if op in ("sitofp", "uitofp"):
             mm = re.match(r"(\S+)\s+(\S+)\s+to\s+(\S+)", rest)
             v = self.val(mm.group(1), mm.group(2))
+            if op == "uitofp":
+                # the i32 bit pattern read as unsigned
+                v = simp_int(ite(icmp("<", v, 0), sym.iadd(v, 2**32), v))
             self.regs[dest] = m.falg.from_int(v)
+            return None
+        if op == "sext":
+            mm = re.match(r"(\S+)\s+(\S+)\s+to\s+(\S+)", rest)
+            self.regs[dest] = self.val(mm.group(1), mm.group(2))
             return None
         if op == "icmp":
             pred, rest2 = rest.split(" ", 1)
